@@ -50,6 +50,7 @@ type vUnit struct {
 	track   int
 	k       int
 	payload []byte // what a decoder must return for this unit
+	raw     []byte // the written NAL units / access unit bytes, concatenated
 	dts     int64  // written DTS, track clock
 	ptsOff  int64
 	sync    bool
@@ -332,7 +333,14 @@ func (r *vRun) writeVideo(ti int) {
 	g, t := r.g, r.g.tracks[ti]
 	kind := verifChoice("vkind", verifParam("VKINDS", 3))
 	var dts int64
-	if verifParam("CONCRETE", 0) == 1 {
+	if verifParam("CONCRETE", 0) == 2 {
+		// symbolic origin, frame durations from a small table
+		if !t.hasDTS {
+			dts = verifRangeI64("vdts0", -900000, int64(1)<<uint(verifParam("VDTS0BITS", 20)))
+		} else {
+			dts = t.lastDTS + []int64{3000, 4500}[verifChoice("vdeltac", 2)]
+		}
+	} else if verifParam("CONCRETE", 0) == 1 {
 		// Low-Latency runs: frame durations from a small concrete table (the part-duration search
 		// over a symbolic sample duration is C19's lemma, not this harness)
 		if !t.hasDTS {
@@ -379,6 +387,9 @@ func (r *vRun) writeVideo(ti int) {
 	var ps fmp4.PartSample
 	ps.FillH264(int32(ptsOff), au) //nolint:errcheck
 	u.payload = ps.Payload
+	for _, n := range au {
+		u.raw = append(u.raw, n...)
+	}
 	before := r.m.streams[0].nextSegmentID
 	err := r.m.WriteH264(r.tracks[ti], ntp, dts+ptsOff, au)
 	verifAssume(err == nil)
@@ -447,7 +458,7 @@ func (r *vRun) writeAudio(ti int) {
 	} else {
 		for i := 0; i < n; i++ {
 			d := dts + int64(i)*mpeg4audio.SamplesPerAccessUnit*int64(t.rate)/44100
-			u := &vUnit{track: ti, k: r.k, dts: d, sync: true, ra: true, payload: aus[i],
+			u := &vUnit{track: ti, k: r.k, dts: d, sync: true, ra: true, payload: aus[i], raw: aus[i],
 				ntp: ntp.Add(time.Duration(i) * mpeg4audio.SamplesPerAccessUnit * time.Second / 44100)}
 			if d+g.offset(t) >= 0 {
 				if g.accept(u) {
